@@ -311,6 +311,37 @@ func replayEdits(rep *run.Report, batch []editCase, prop string, serModes int) {
 					fail("read", abs.Value{K: 'a', Arr: c.docs}.String(), abs.Value{K: 'a', Arr: got}.String(), rd.Name+": "+cerr.Error())
 				}
 			}
+			// the same history applied to the tape AFTER a serialize round trip (strings de-duplicated in Message, NOP runs rebuilt):
+			// the edits address the same positions and must give the same document
+			if len(c.hist) > 0 && i%2 == 0 {
+				func() {
+					defer func() {
+						if p := recover(); p != nil {
+							fail("read", "the history applies to a deserialized tape", "panic", fmt.Sprint(p))
+						}
+					}()
+					base, perr := run.Parse(append([]byte{}, c.text0...), run.Cfg{AVX512: avx512, Copy: c.copy, ND: c.nd}, nil)
+					if perr != nil {
+						return
+					}
+					ser := simdjson.NewSerializer()
+					ser.CompressMode(simdjson.CompressMode(i % 4))
+					dpj, derr := ser.Deserialize(ser.Serialize(nil, *base), nil)
+					if derr != nil {
+						fail("serialize", "round trip of the unedited document", "error", derr.Error())
+						return
+					}
+					for _, op := range c.hist {
+						if _, _, aerr := tapex.Apply(dpj, op, readIterValue); aerr != nil {
+							fail("read", "the history applies to a deserialized tape", "error", fmt.Sprintf("%s: %v", op, aerr))
+							return
+						}
+					}
+					if cerr := read.Compare(dpj, c.docs); cerr != nil {
+						fail("read", abs.Value{K: 'a', Arr: c.docs}.String(), "different", "history applied after a serialize round trip: "+cerr.Error())
+					}
+				}()
+			}
 			// lookups agree with traversal: FindKey / FindPath for every key of every object, and an absent key
 			for _, p := range c.paths {
 				if lerr := lookupAt(pj, c.docs, p); lerr != nil {
